@@ -1,1 +1,612 @@
-//! Generators for the scan monitors.
+//! Generator of pbulk-index documents (C16) and the fault-injecting reader.
+//!
+//! A document is a sequence of lines, each carrying its meaning
+//! (`oracle::scan::Sem`) and its rendered bytes.  Every value and list item
+//! embeds a unique id (`r<record>l<line>...`) so that an observed value can be
+//! traced to the line it came from.  Zones excluded on soundness grounds
+//! (DESIGN.md section 4) are never generated: no blanks between a key and
+//! `=`, no junk or known-key lines before the first `PKGNAME=` (outside the
+//! dedicated fault class), only ASCII space/tab as padding, no CR, no empty
+//! `PKG_LOCATION=`, list keys and faulty lines never repeated inside one
+//! record.
+
+use crate::oracle::scan::{Sem, SCALARS};
+use crate::rng::Rng;
+use std::io::{self, BufRead, Read};
+
+#[derive(Clone, Copy, Debug, PartialEq, Eq)]
+pub enum Class {
+    Clean,
+    MissingPkgname,
+    BadDepend,
+    BadLocation,
+    /// Invalid UTF-8 inside an *ignored* line: the read may fail as a whole
+    /// or return the fault-free list, nothing else.
+    Utf8,
+}
+
+impl Class {
+    pub fn name(self) -> &'static str {
+        match self {
+            Class::Clean => "clean",
+            Class::MissingPkgname => "missing_pkgname",
+            Class::BadDepend => "bad_depend",
+            Class::BadLocation => "bad_location",
+            Class::Utf8 => "invalid_utf8",
+        }
+    }
+}
+
+pub struct Doc {
+    pub bytes: Vec<u8>,
+    pub sems: Vec<Sem>,
+    pub class: Class,
+    /// Where the fault sits: record position x item position.
+    pub fault_pos: String,
+    pub records: usize,
+    /// (key present in record i, absent in record i+1) pairs.
+    pub leak_probes: usize,
+    pub repeated_keys: usize,
+    pub ignored_lines: usize,
+    pub dup_pkgname: usize,
+}
+
+const UNKNOWN_KEYS: [&str; 20] = [
+    "PKGNAMEX",
+    "XPKGNAME",
+    "PKGNAME_",
+    "pkgname",
+    "Pkgname",
+    "PKGNAME2",
+    "PKGNAMES",
+    "DEPENDS",
+    "PKGPATH",
+    "ALL_DEPENDS_",
+    "all_depends",
+    "MAINTAINERS",
+    "maintainer",
+    "PKG_LOCATIONS",
+    "pkg_location",
+    "SCAN_DEPEND",
+    "MULTI_VERSIONS",
+    "_PBULK_WEIGHT",
+    "FOO",
+    "",
+];
+
+const KEY_LOCATION: usize = 10;
+const KEY_ALL_DEPENDS: usize = 11;
+const KEY_SCAN_DEPENDS: usize = 12;
+const KEY_MULTI_VERSION: usize = 13;
+const NKEYS: usize = 14;
+
+fn pad(r: &mut Rng) -> &'static str {
+    match r.below(12) {
+        0 => " ",
+        1 => "\t",
+        2 => "  ",
+        3 => " \t ",
+        _ => "",
+    }
+}
+
+fn sep(r: &mut Rng) -> &'static str {
+    match r.below(8) {
+        0 => "  ",
+        1 => "\t",
+        2 => " \t",
+        3 => "   ",
+        _ => " ",
+    }
+}
+
+fn pos_name(i: usize, n: usize) -> &'static str {
+    if i == 0 {
+        "first"
+    } else if i + 1 >= n {
+        "last"
+    } else {
+        "middle"
+    }
+}
+
+fn scalar_value(r: &mut Rng, id: &str) -> String {
+    match r.below(12) {
+        0 => String::new(),
+        1 => format!("{id} a=b"),
+        2 => format!("{id}  two\twords"),
+        3 => format!("={id}"),
+        4 => format!("{id}="),
+        5 => format!("{id} PKGNAME=x-1"),
+        6 => format!("{id} \u{e9}t\u{e9} \u{20ac}"),
+        7 => format!("{id}:../../cat/pkg"),
+        _ => id.to_string(),
+    }
+}
+
+pub fn good_depend(r: &mut Rng, id: &str) -> String {
+    let pat = match r.below(7) {
+        0 => format!("{id}-[0-9]*"),
+        1 => format!("{id}>=1.0"),
+        2 => format!("{id}>=1.0<2.0"),
+        3 => format!("{id}-1.0nb2"),
+        4 => format!("{{{id},alt{id}}}-[0-9]*"),
+        5 => format!("{id}-*"),
+        _ => format!("{id}>=0.7.0nb1"),
+    };
+    let path = match r.below(4) {
+        0 => format!("cat/{id}"),
+        1 => format!("../../cat//{id}/"),
+        _ => format!("../../cat/{id}"),
+    };
+    format!("{pat}:{path}")
+}
+
+pub fn bad_depend(r: &mut Rng, id: &str) -> String {
+    match r.below(10) {
+        0 => format!("hello{id}"),
+        1 => format!("{id}:b:c"),
+        2 => format!("{id}-[0-9]*::../../cat/{id}"),
+        3 => format!("{id}>2>3:../../cat/{id}"),
+        4 => format!("{id}<2>=1:../../cat/{id}"),
+        5 => format!("{{{id}:../../cat/{id}"),
+        6 => format!("{id}-[0-9]*:foo{id}"),
+        7 => format!("{id}-[0-9]*:../cat/{id}"),
+        8 => format!("{id}-[0-9]*:/cat/{id}"),
+        _ => format!("{id}-[0-9]*:../../cat/sub/{id}"),
+    }
+}
+
+fn good_location(r: &mut Rng, id: &str) -> String {
+    match r.below(3) {
+        0 => format!("../../cat/{id}"),
+        1 => format!("cat//{id}/"),
+        _ => format!("cat/{id}"),
+    }
+}
+
+fn bad_location(r: &mut Rng, id: &str) -> String {
+    match r.below(6) {
+        0 => id.to_string(),
+        1 => format!("../cat/{id}"),
+        2 => format!("/cat/{id}"),
+        3 => format!("cat/sub/{id}"),
+        4 => format!("../../{id}"),
+        _ => format!("./cat/{id}"),
+    }
+}
+
+fn scan_item(r: &mut Rng, id: &str) -> String {
+    match r.below(4) {
+        0 => format!("/usr/pkgsrc/mk/{id}.mk"),
+        1 => format!("a//b/./{id}/"),
+        2 => format!("{id}=x"),
+        _ => format!("../../cat/{id}/buildlink3.mk"),
+    }
+}
+
+fn multi_item(r: &mut Rng, id: &str) -> String {
+    match r.below(4) {
+        0 => format!("X{id}="),
+        1 => id.to_string(),
+        2 => format!("A={id}=B"),
+        _ => format!("PYTHON_VERSION_REQD={id}"),
+    }
+}
+
+fn pkgname_value(r: &mut Rng, id: &str) -> String {
+    match r.below(16) {
+        0 => String::new(),
+        1 => id.to_string(),
+        2 => format!("py312-{id}-2.0nb3"),
+        3 => format!("{id}-1.0 extra"),
+        4 => format!("{id}-1.0=x"),
+        _ => format!("pkg{id}-1.{}", r.below(40)),
+    }
+}
+
+struct Line {
+    sem: Sem,
+    text: Vec<u8>,
+}
+
+fn kv_line(r: &mut Rng, key: &str, value: &str, sem: Sem) -> Line {
+    let text = format!("{}{}={}{}{}", pad(r), key, pad(r), value, pad(r));
+    Line { sem, text: text.into_bytes() }
+}
+
+fn list_text(r: &mut Rng, items: &[String]) -> String {
+    let mut s = String::new();
+    for (i, it) in items.iter().enumerate() {
+        if i > 0 {
+            s.push_str(sep(r));
+        }
+        s.push_str(it);
+    }
+    s
+}
+
+fn ignored_line(r: &mut Rng, id: &str) -> Line {
+    let text = match r.below(10) {
+        0 => String::new(),
+        1 => " ".to_string(),
+        2 => "\t ".to_string(),
+        3 => {
+            // line without '='
+            match r.below(6) {
+                0 => "PKGNAME".to_string(),
+                1 => format!("PKGNAME {id}-1.0"),
+                2 => format!("PKGNAME:{id}-1.0"),
+                3 => "ALL_DEPENDS".to_string(),
+                4 => format!("# comment {id}"),
+                _ => format!("junk {id}"),
+            }
+        }
+        _ => {
+            let key = *r.pick(&UNKNOWN_KEYS);
+            let val = match r.below(6) {
+                0 => format!("PKGNAME={id}-9.9"),
+                1 => good_depend(r, id),
+                2 => format!("cat/{id}"),
+                3 => String::new(),
+                _ => format!("{id}-9.9"),
+            };
+            format!("{}{}={}{}{}", pad(r), key, pad(r), val, pad(r))
+        }
+    };
+    Line { sem: Sem::Ignored, text: text.into_bytes() }
+}
+
+fn utf8_line(r: &mut Rng, id: &str) -> Line {
+    let mut text: Vec<u8> = match r.below(3) {
+        0 => format!("FOO{id}=").into_bytes(),
+        1 => format!("junk {id} ").into_bytes(),
+        _ => format!("XPKGNAME={id}-").into_bytes(),
+    };
+    match r.below(4) {
+        0 => text.extend_from_slice(b"\xff\xfe"),
+        1 => text.extend_from_slice(b"caf\xe9"),
+        2 => text.extend_from_slice(b"\xc3"),
+        _ => text.extend_from_slice(b"\x80x"),
+    }
+    Line { sem: Sem::Ignored, text }
+}
+
+#[derive(Clone, Copy, PartialEq)]
+enum Force {
+    None,
+    BadDep,
+    BadLoc,
+    Utf8,
+}
+
+struct RecOut {
+    lines: Vec<Line>,
+    keys: [bool; NKEYS],
+    repeated: usize,
+    ignored: usize,
+    fault_item: &'static str,
+}
+
+#[allow(clippy::too_many_arguments)]
+fn record(
+    r: &mut Rng,
+    ri: usize,
+    lineno: &mut usize,
+    prev_keys: Option<&[bool; NKEYS]>,
+    prev_name: Option<&str>,
+    force: Force,
+    small: bool,
+    dup: &mut usize,
+) -> (RecOut, String) {
+    let mut next_id = |tag: &str| {
+        *lineno += 1;
+        format!("r{ri}{tag}l{}", *lineno)
+    };
+    // PKGNAME= line
+    let name = match prev_name {
+        Some(p) if r.chance(1, 8) => {
+            *dup += 1;
+            p.to_string()
+        }
+        _ => {
+            let id = next_id("n");
+            pkgname_value(r, &id)
+        }
+    };
+    let head = kv_line(r, "PKGNAME", &name, Sem::Pkgname(name.clone()));
+
+    // key subset
+    let mut keys = [false; NKEYS];
+    let mode = r.below(10);
+    for (k, slot) in keys.iter_mut().enumerate() {
+        *slot = match (mode, prev_keys) {
+            (0, _) => true,
+            (1, _) => false,
+            (2, Some(p)) => !p[k],
+            (3, Some(p)) => p[k],
+            _ => {
+                if small {
+                    r.chance(1, 4)
+                } else {
+                    r.chance(1, 2)
+                }
+            }
+        };
+    }
+    match force {
+        Force::BadDep => keys[KEY_ALL_DEPENDS] = true,
+        Force::BadLoc => keys[KEY_LOCATION] = true,
+        _ => {}
+    }
+
+    let max_items = if small { 2 } else { 5 };
+    let mut body: Vec<Line> = vec![];
+    let mut repeated = 0;
+    let mut fault_item = "-";
+    for k in 0..NKEYS {
+        if !keys[k] {
+            continue;
+        }
+        match k {
+            KEY_LOCATION => {
+                let bad = force == Force::BadLoc;
+                let copies = if !bad && r.chance(1, 5) { 2 } else { 1 };
+                if copies > 1 {
+                    repeated += 1;
+                }
+                for _ in 0..copies {
+                    let id = next_id("loc");
+                    let v = if bad { bad_location(r, &id) } else { good_location(r, &id) };
+                    body.push(kv_line(
+                        r,
+                        "PKG_LOCATION",
+                        &v,
+                        Sem::Location { value: v.clone(), valid: !bad },
+                    ));
+                }
+            }
+            KEY_ALL_DEPENDS => {
+                let n = r.below(max_items + 1);
+                let mut items: Vec<String> = vec![];
+                for j in 0..n {
+                    let id = next_id(&format!("d{j}"));
+                    items.push(good_depend(r, &id));
+                }
+                let mut bad = None;
+                if force == Force::BadDep {
+                    let at = r.below(items.len() + 1);
+                    let id = next_id("bad");
+                    items.insert(at, bad_depend(r, &id));
+                    fault_item = pos_name(at, items.len());
+                    bad = Some(at);
+                }
+                let text = list_text(r, &items);
+                body.push(kv_line(r, "ALL_DEPENDS", &text, Sem::AllDepends { items, bad }));
+            }
+            KEY_SCAN_DEPENDS => {
+                let n = r.below(max_items + 1);
+                let items: Vec<String> = (0..n)
+                    .map(|j| {
+                        let id = next_id(&format!("s{j}"));
+                        scan_item(r, &id)
+                    })
+                    .collect();
+                let text = list_text(r, &items);
+                body.push(kv_line(r, "SCAN_DEPENDS", &text, Sem::ScanDepends(items)));
+            }
+            KEY_MULTI_VERSION => {
+                let n = r.below(max_items + 1);
+                let items: Vec<String> = (0..n)
+                    .map(|j| {
+                        let id = next_id(&format!("m{j}"));
+                        multi_item(r, &id)
+                    })
+                    .collect();
+                let text = list_text(r, &items);
+                body.push(kv_line(r, "MULTI_VERSION", &text, Sem::MultiVersion(items)));
+            }
+            _ => {
+                let copies = match r.below(8) {
+                    0 => 2,
+                    1 => 3,
+                    _ => 1,
+                };
+                if copies > 1 {
+                    repeated += 1;
+                }
+                for _ in 0..copies {
+                    let id = next_id(SCALARS[k]);
+                    let v = scalar_value(r, &id);
+                    body.push(kv_line(r, SCALARS[k], &v, Sem::Scalar(k, v.clone())));
+                }
+            }
+        }
+    }
+    r.shuffle(&mut body);
+
+    // ignored lines at random places after the PKGNAME= line
+    let mut ignored = 0;
+    let nign = match r.below(6) {
+        0 => r.range(1, 4),
+        1 => 1,
+        _ => 0,
+    };
+    for _ in 0..nign {
+        let id = next_id("x");
+        let at = r.below(body.len() + 1);
+        body.insert(at, ignored_line(r, &id));
+        ignored += 1;
+    }
+    if force == Force::Utf8 {
+        let id = next_id("u");
+        let at = r.below(body.len() + 1);
+        body.insert(at, utf8_line(r, &id));
+    }
+    let mut lines = vec![head];
+    lines.extend(body);
+    (RecOut { lines, keys, repeated, ignored, fault_item }, name)
+}
+
+/// One document of the given class.  `small` keeps it short (I/O fault
+/// sweeps and the Mini tier).
+pub fn doc(r: &mut Rng, class: Class, small: bool) -> Doc {
+    let mut lineno = 0usize;
+    let mut lines: Vec<Line> = vec![];
+    let nrec = if class == Class::Clean && r.chance(1, 40) {
+        0
+    } else if small {
+        r.range(1, 3)
+    } else {
+        r.range(1, 8)
+    };
+    let fault_rec = if nrec > 0 { r.below(nrec) } else { 0 };
+    let mut fault_pos = String::from("-");
+    let (mut leak_probes, mut repeated, mut ignored, mut dup) = (0, 0, 0, 0);
+
+    // blank lines before the first record (blank lines are ignored)
+    if r.chance(1, 10) {
+        for _ in 0..r.range(1, 2) {
+            let t = *r.pick(&["", " ", "\t"]);
+            lines.push(Line { sem: Sem::Ignored, text: t.as_bytes().to_vec() });
+            ignored += 1;
+        }
+    }
+    let mut nrec_out = nrec;
+    if class == Class::MissingPkgname {
+        // a known key that belongs to no PKGNAME= line
+        let id = "r-orphan";
+        let orphan = match r.below(5) {
+            0 => kv_line(r, "ALL_DEPENDS", "", Sem::AllDepends { items: vec![], bad: None }),
+            1 => {
+                let v = format!("cat/{id}");
+                kv_line(r, "PKG_LOCATION", &v, Sem::Location { value: v.clone(), valid: true })
+            }
+            2 => {
+                let it = vec![format!("X={id}")];
+                kv_line(r, "MULTI_VERSION", &it[0].clone(), Sem::MultiVersion(it))
+            }
+            _ => {
+                let k = r.below(SCALARS.len());
+                kv_line(r, SCALARS[k], id, Sem::Scalar(k, id.to_string()))
+            }
+        };
+        lines.push(orphan);
+        if r.chance(1, 4) {
+            nrec_out = 0; // no PKGNAME= line at all
+            fault_pos = "no-record".into();
+        } else {
+            fault_pos = "before-first".into();
+        }
+    }
+
+    let mut prev_keys: Option<[bool; NKEYS]> = None;
+    let mut prev_name: Option<String> = None;
+    for ri in 0..nrec_out {
+        let force = if ri == fault_rec {
+            match class {
+                Class::BadDepend => Force::BadDep,
+                Class::BadLocation => Force::BadLoc,
+                Class::Utf8 => Force::Utf8,
+                _ => Force::None,
+            }
+        } else {
+            Force::None
+        };
+        let (rec, name) = record(
+            r,
+            ri,
+            &mut lineno,
+            prev_keys.as_ref(),
+            prev_name.as_deref(),
+            force,
+            small,
+            &mut dup,
+        );
+        if force != Force::None {
+            fault_pos = format!("rec-{}/item-{}", pos_name(ri, nrec_out), rec.fault_item);
+        }
+        if let Some(p) = &prev_keys {
+            leak_probes += (0..NKEYS).filter(|&k| p[k] && !rec.keys[k]).count();
+        }
+        repeated += rec.repeated;
+        ignored += rec.ignored;
+        prev_keys = Some(rec.keys);
+        prev_name = Some(name);
+        lines.extend(rec.lines);
+    }
+
+    let mut bytes = vec![];
+    let n = lines.len();
+    let final_nl = r.chance(3, 4);
+    let mut sems = Vec::with_capacity(n);
+    for (i, l) in lines.into_iter().enumerate() {
+        bytes.extend_from_slice(&l.text);
+        if i + 1 < n || final_nl {
+            bytes.push(b'\n');
+        }
+        sems.push(l.sem);
+    }
+    Doc {
+        bytes,
+        sems,
+        class,
+        fault_pos,
+        records: nrec_out,
+        leak_probes,
+        repeated_keys: repeated,
+        ignored_lines: ignored,
+        dup_pkgname: dup,
+    }
+}
+
+/// A `BufRead` over a byte slice with a small window.  The `fail_at`-th
+/// refill (1-based) reports a hard `ErrorKind::Other` error exactly once; the
+/// refills after it continue with the data, so a caller that swallows the
+/// error neither loops forever nor can hide that it did.
+pub struct FaultReader<'a> {
+    data: &'a [u8],
+    pos: usize,
+    end: usize,
+    bufsize: usize,
+    pub refills: usize,
+    fail_at: usize,
+    pub fired: bool,
+}
+
+impl<'a> FaultReader<'a> {
+    /// `fail_at == 0` never fails.
+    pub fn new(data: &'a [u8], bufsize: usize, fail_at: usize) -> FaultReader<'a> {
+        FaultReader { data, pos: 0, end: 0, bufsize: bufsize.max(1), refills: 0, fail_at, fired: false }
+    }
+}
+
+impl BufRead for FaultReader<'_> {
+    fn fill_buf(&mut self) -> io::Result<&[u8]> {
+        if self.pos == self.end {
+            self.refills += 1;
+            if self.refills == self.fail_at {
+                self.fired = true;
+                return Err(io::Error::new(io::ErrorKind::Other, "injected read error"));
+            }
+            self.end = (self.pos + self.bufsize).min(self.data.len());
+        }
+        Ok(&self.data[self.pos..self.end])
+    }
+    fn consume(&mut self, amt: usize) {
+        self.pos = (self.pos + amt).min(self.end);
+    }
+}
+
+impl Read for FaultReader<'_> {
+    fn read(&mut self, out: &mut [u8]) -> io::Result<usize> {
+        let n = {
+            let b = self.fill_buf()?;
+            let n = b.len().min(out.len());
+            out[..n].copy_from_slice(&b[..n]);
+            n
+        };
+        self.consume(n);
+        Ok(n)
+    }
+}
